@@ -26,7 +26,13 @@ RULE = ("the C01 complete small layer (documents <= 3 nodes x 1-segment vocabula
         "FOLLOWED by further segments (re-descent, a second `[parent(m)]`); the complete set of lists of <= 4 elements over "
         "{null, {a: &x 1}, {a: 2}, {b: *x, a: 3}} (root / under a key / in a list) x `[has_child(&x)]`, `[!has_child(&x)]` alone and "
         "followed by a key / `*` / `[parent()]`, plus 6 000 random lists of maps with null elements, maps of maps and plain lists "
-        "with anchored / aliased children x `[(!)has_child(&name)]`.  distinct_nontrivial = distinct (document, path) with a non-empty result; "
+        "with anchored / aliased children x `[(!)has_child(&name)]`; 6 000 Hashes of Hashes (child keys from the punctuation set, also "
+        "dotted host names / keys with a slash) and Arrays-of-Hashes, with null / scalar members, at the root / under a (punctuation) key / "
+        "in a list x `[min|max|unique|distinct|has_child(NAME)]` plain and inverted, alone or followed by the attribute / `*` / `[parent(n)]` / `**`.  "
+        "BOTH NOTATIONS OF THE QUERY: every query with a keyword segment and a third of the others is also WRITTEN in forward-slash "
+        "notation (when the real parser reads the same segments); every result it reports differently from the dot query (other path "
+        "text, other coordinates) is judged on the real code: parent[parentref] is the node, the ancestry walks from the root, the reported "
+        "path - as it is and rendered in either notation - re-resolves to the node.  distinct_nontrivial = distinct (document, path) with a non-empty result; "
         "results at depth >= 2 are counted in the histogram (deep_results).")
 
 
